@@ -4,6 +4,7 @@ mod core;
 mod dft;
 mod fhe;
 mod hal;
+mod ggsw;
 mod ks;
 mod lut;
 mod mem;
@@ -153,6 +154,23 @@ fn main() {
             out.flush().unwrap();
             println!("ks: {} events", cases.len());
         }
+        // ggsw <descs.ndjson> <events.ndjson>
+        "ggsw" => {
+            let cases = read_ndjson(&args[2]);
+            let mut out = BufWriter::new(std::fs::File::create(&args[3]).unwrap());
+            let mut mods = ggsw::GMods::new();
+            let seed = env_seed();
+            for (idx, c0) in cases.iter().enumerate() {
+                let mut c = c0.clone();
+                if c.get("id").is_none() {
+                    c["id"] = serde_json::json!(idx + 1);
+                }
+                let ev = ggsw::run_ggsw(&mut mods, &c, seed);
+                writeln!(out, "{}", serde_json::to_string(&ev).unwrap()).unwrap();
+            }
+            out.flush().unwrap();
+            println!("ggsw: {} events", cases.len());
+        }
         // hist <histories.ndjson> <events.ndjson>
         "hist" => {
             let cases = read_ndjson(&args[2]);
@@ -162,7 +180,7 @@ fn main() {
                 if c.get("id").is_none() {
                     c["id"] = serde_json::json!(idx + 1);
                 }
-                let ev = mem::run_hist(&c);
+                let ev = if c.get("win").is_some() { mem::run_arena(&c) } else { mem::run_hist(&c) };
                 writeln!(out, "{}", serde_json::to_string(&ev).unwrap()).unwrap();
             }
             out.flush().unwrap();
